@@ -117,6 +117,7 @@ type Vaxis struct {
 	cursorNext       cursorState
 	cursorLast       cursorState
 	closed           bool
+	modesEnabled     bool
 	refresh          bool
 	kittyFlags       int
 	disableMouse     bool
@@ -1289,9 +1290,18 @@ func (vx *Vaxis) enableModes() {
 		_, _ = vx.tw.WriteString(decset(mouseSGR))
 	}
 	_, _ = vx.tw.Flush()
+	vx.modesEnabled = true
 }
 
 func (vx *Vaxis) disableModes() {
+	if !vx.modesEnabled {
+		// Nothing to undo: we are shutting down before start-up got as
+		// far as enabling anything (or for the second time). Popping the
+		// kitty keyboard stack or resetting modes now would change
+		// state which is not ours
+		return
+	}
+	vx.modesEnabled = false
 	_, _ = vx.tw.WriteString(sgrReset)               // reset fg, bg, attrs
 	_, _ = vx.tw.WriteString(decrst(bracketedPaste)) // bracketed paste
 	if vx.caps.kittyKeyboard {
